@@ -75,11 +75,11 @@ type Options struct {
 }
 
 type Machine struct {
-	prog    *ssa.Program
-	solver  *Solver
-	opts    Options
+	prog     *ssa.Program
+	solver   *Solver
+	opts     Options
 	baseOpts Options
-	harness string
+	harness  string
 
 	// exploration (persist across paths)
 	log         []*decision
@@ -104,64 +104,65 @@ type Machine struct {
 	knownSupp   map[string]int
 
 	// per path
-	pos       int
-	pc        []*Term
-	globals   map[*ssa.Global]*value
-	inputs    []*Term // symbolic inputs created on this path, in order
-	inputLbl  []string
-	labelCnt  map[string]int
-	steps     int64
-	gs        []*G
-	cur       *G
-	done      chan *abortPath
-	sched     []int
-	preempts  int
-	schedOff  bool // sym.Schedules(false): the default schedule only, no delay is spent
-	timerChoice bool // a timer's "has it fired yet" was decided on this path: not reproducible natively
-	mutexes   map[*value]*mutexState
-	wgs       map[*value]*wgState
-	onces     map[*value]*onceState
-	conds     map[*value]*condState
-	chanSeq   int
-	observed  []string
-	pathNotes []string
-	finished  bool
-	initDone  map[*ssa.Package]bool
-	sigCache  map[string]value
-	ghost     map[string]*Term
-	reflTypes map[string]value
-	timers    []*chanV
-	ptrIDs    map[*value]int
-	inInit    int
-	syncMaps  map[*value]*mapV
-	pools     map[*value][]value
-	files     map[*value]*fileState
-	afterFuncs map[*value]*afterFuncState
-	syncVC    map[hbKey]vclock
-	mapRaces  map[*mapV]*mapRaceState
-	sliceRaces map[*value]*mapRaceState
-	raceSeen  map[string]bool
-	overrides map[string]value
-	racyScope string
-	randInts  []*Term
-	forkSites map[string]int
-	randDraws int
-	siteFn    string
-	resetEvery int
-	needFP    bool
+	pos            int
+	pc             []*Term
+	globals        map[*ssa.Global]*value
+	inputs         []*Term // symbolic inputs created on this path, in order
+	inputLbl       []string
+	labelCnt       map[string]int
+	steps          int64
+	gs             []*G
+	cur            *G
+	done           chan *abortPath
+	sched          []int
+	preempts       int
+	schedOff       bool // sym.Schedules(false): the default schedule only, no delay is spent
+	timerChoice    bool // a timer's "has it fired yet" was decided on this path: not reproducible natively
+	mutexes        map[*value]*mutexState
+	wgs            map[*value]*wgState
+	atomicVals     map[*value]value // contents of sync/atomic.Value cells
+	onces          map[*value]*onceState
+	conds          map[*value]*condState
+	chanSeq        int
+	observed       []string
+	pathNotes      []string
+	finished       bool
+	initDone       map[*ssa.Package]bool
+	sigCache       map[string]value
+	ghost          map[string]*Term
+	reflTypes      map[string]value
+	timers         []*chanV
+	ptrIDs         map[*value]int
+	inInit         int
+	syncMaps       map[*value]*mapV
+	pools          map[*value][]value
+	files          map[*value]*fileState
+	afterFuncs     map[*value]*afterFuncState
+	syncVC         map[hbKey]vclock
+	mapRaces       map[*mapV]*mapRaceState
+	sliceRaces     map[*value]*mapRaceState
+	raceSeen       map[string]bool
+	overrides      map[string]value
+	racyScope      string
+	randInts       []*Term
+	forkSites      map[string]int
+	randDraws      int
+	siteFn         string
+	resetEvery     int
+	needFP         bool
 	mapOrderNondet bool
 }
 
 type G struct {
-	id      int
-	resume  chan bool
-	state   int // 0 runnable, 1 blocked, 2 dead
-	ready   func() bool
-	what    string
-	name    string
-	started bool
-	stack   []*frame
-	vc      vclock // happens-before vector clock (race.go)
+	id         int
+	resume     chan bool
+	state      int // 0 runnable, 1 blocked, 2 dead
+	ready      func() bool
+	what       string
+	name       string
+	started    bool
+	stack      []*frame
+	vc         vclock   // happens-before vector clock (race.go)
 	waitTimers []*chanV // unfired timer channels this goroutine is blocked on
 }
 
@@ -699,6 +700,7 @@ func (m *Machine) resetPath() {
 	m.timerChoice = false
 	m.mutexes = map[*value]*mutexState{}
 	m.wgs = map[*value]*wgState{}
+	m.atomicVals = map[*value]value{}
 	m.onces = map[*value]*onceState{}
 	m.conds = map[*value]*condState{}
 	m.chanSeq = 0
